@@ -4,7 +4,7 @@
    (None = outside the documented range), see C03_Proofs.v. *)
 From Coq Require Import String ZArith List Bool QArith.
 From HD Require Import Base.Val Base.PySlice C03_Model C03_Proofs C03_Proofs_Geom C03_Proofs_Stack C03_Proofs_Sub
-  C03_Proofs_Infer C03_Proofs_Strict C03_Proofs_NoHint C03_Proofs_Perm.
+  C03_Proofs_Infer C03_Proofs_Strict C03_Proofs_NoHint C03_Proofs_Perm C03_Model_PM C03_Proofs_PM.
 From HD Require Base.Lin3.
 Import ListNotations.
 Open Scope Z_scope.
@@ -743,3 +743,94 @@ Example C03_flipped_example : exists V',
   q_arr V' = [[[4; 0]; [0; 5]; [6; 0]]; [[0; 1]; [2; 0]; [0; 3]]]%Z.
 Proof. exact flip_example. Qed.
 Print Assumptions C03_flipped_example.
+
+(* ======================================================================= *)
+(* PARAMETRIC MAPS (C03_Model_PM.v, C03_Proofs_PM.v): derived images whose    *)
+(* planes are aligned to source images or placed by explicit plane positions  *)
+(* ======================================================================= *)
+Open Scope Q_scope.
+(* the constructor refuses exactly a number of plane positions (the caller's when
+   given, else the sources') that is not the number of planes of the pixel array *)
+Theorem C03_pm_refused_iff : forall src_ps src_rc src_cc src_spr src_spc src_sbs u_ps u_or u_pm rows cols arr k,
+  pm_stored src_ps src_rc src_cc src_spr src_spc src_sbs u_ps u_or u_pm rows cols arr = Err k <->
+  (length (pm_positions src_ps u_ps) <> length arr /\ k = "ValueError"%string).
+Proof. exact pm_stored_err. Qed.
+Print Assumptions C03_pm_refused_iff.
+
+(* what an accepted parametric map records: orientation / measures / positions are
+   the caller's when given, else the sources'; nothing is sorted, omitted or inferred *)
+Theorem C03_pm_recorded : forall src_ps src_rc src_cc src_spr src_spc src_sbs u_ps u_or u_pm rows cols arr st,
+  pm_stored src_ps src_rc src_cc src_spr src_spc src_sbs u_ps u_or u_pm rows cols arr = Ok st <->
+  (length (pm_positions src_ps u_ps) = length arr /\
+   st = Stored (fst (pm_orientation src_rc src_cc u_or)) (snd (pm_orientation src_rc src_cc u_or))
+               (fst (fst (pm_measures src_spr src_spc src_sbs u_pm)))
+               (snd (fst (pm_measures src_spr src_spc src_sbs u_pm)))
+               (snd (pm_measures src_spr src_spc src_sbs u_pm)) rows cols
+               (combine (pm_positions src_ps u_ps) arr)).
+Proof. exact pm_stored_ok. Qed.
+Print Assumptions C03_pm_recorded.
+
+(* frame k records plane position k AND holds plane k of the pixel array, whatever
+   the order in which the planes were listed *)
+Theorem C03_pm_frames_paired : forall src_ps src_rc src_cc src_spr src_spc src_sbs u_ps u_or u_pm rows cols arr st,
+  pm_stored src_ps src_rc src_cc src_spr src_spc src_sbs u_ps u_or u_pm rows cols arr = Ok st ->
+  length (st_planes st) = length arr /\
+  forall k dp da, (k < length arr)%nat ->
+    nth k (st_planes st) (dp, da) = (nth k (pm_positions src_ps u_ps) dp, nth k arr da).
+Proof. exact pm_frames_paired. Qed.
+Print Assumptions C03_pm_frames_paired.
+
+(* END TO END over pm_stored -> get_volume_positions -> stacked_full -> get_volume:
+   planes at p0 + m sbs n for distinct integers m listed in ANY order (ascending,
+   descending, interleaved), unit orthogonal in-plane axes, a recorded slice
+   spacing: the read-back accepts, plane k of the pixel array is output slice
+   m_k - min m, every voxel of it lies where plane position k put it, and the
+   slices in the gaps are zero *)
+Theorem C03_pm_roundtrip : forall (p0 rowcos colcos : v3) (spr spc sbs : Q) rows cols ms arr
+    src_ps src_rc src_cc src_spr src_spc src_sbs u_ps u_or u_pm st,
+  vdot rowcos rowcos == 1 -> vdot colcos colcos == 1 -> vdot rowcos colcos == 0 -> 0 < sbs ->
+  NoDup ms -> arr <> [] -> (1 <= rows)%Z -> (1 <= cols)%Z -> Forall (plane_shape rows cols) arr ->
+  let n := normal rowcos colcos in
+  let plane m := vadd p0 (vscale (inject_Z m * sbs) n) in
+  pm_stored src_ps src_rc src_cc src_spr src_spc src_sbs u_ps u_or u_pm rows cols arr = Ok st ->
+  pm_positions src_ps u_ps = map plane ms ->
+  pm_orientation src_rc src_cc u_or = (rowcos, colcos) ->
+  pm_measures src_spr src_spc src_sbs u_pm = (spr, spc, Some sbs) ->
+  st_planes st = combine (map plane ms) arr /\
+  exists mmin n0 G out,
+    In mmin ms /\ (forall m, In m ms -> (0 <= m - mmin < n0)%Z) /\ In (mmin + n0 - 1)%Z ms /\
+    get_volume true st None None None None None None false = Ok ((n0, rows, cols), G, out) /\
+    length out = Z.to_nat n0 /\
+    (forall m r c : Z,
+       physZ G (m - mmin) r c =v=
+       vadd (vadd (plane m) (vscale (inject_Z r * spr) colcos)) (vscale (inject_Z c * spc) rowcos)) /\
+    (forall k, (k < length ms)%nat ->
+       nth (Z.to_nat (nth k ms 0%Z - mmin)) out [] = nth k arr []) /\
+    (forall i, (0 <= i < n0)%Z -> ~ In (mmin + i)%Z ms ->
+       nth (Z.to_nat i) out [] = zeros_plane rows cols).
+Proof. exact pm_roundtrip. Qed.
+Print Assumptions C03_pm_roundtrip.
+
+(* non-vacuity: an axial series listed head-to-feet with one plane missing
+   (m = 3, 2, 0), positions taken from the source images, comes back as 4 slices
+   with the planes in spatial order and zeros in the gap; a count mismatch of
+   explicit plane positions is refused *)
+Example C03_pm_example :
+  let rc := V3 1 0 0 in let cc := V3 0 1 0 in
+  let plane m := vadd (V3 (-20) (-30) 10) (vscale (inject_Z m * (5 # 2)) (normal rc cc)) in
+  let arr := [[[31; 32]]; [[21; 22]]; [[1; 2]]]%Z in
+  (exists st G, pm_stored (map plane [3; 2; 0]%Z) rc cc (4 # 5) (3 # 5) (Some (5 # 2)) None None None 1 2 arr = Ok st /\
+      pm_positions (map plane [3; 2; 0]%Z) None = map plane [3; 2; 0]%Z /\
+      Forall (plane_shape 1 2) arr /\ NoDup [3; 2; 0]%Z /\
+      get_volume true st None None None None None None false
+      = Ok ((4, 1, 2)%Z, G, [[[1; 2]]; [[0; 0]]; [[21; 22]]; [[31; 32]]]%Z) /\
+      atr G =v= plane 0%Z) /\
+  pm_stored (map plane [3; 2; 0]%Z) rc cc (4 # 5) (3 # 5) (Some (5 # 2)) (Some (map plane [1; 0]%Z)) None None 1 2 arr
+  = Err "ValueError".
+Proof.
+  split; [|vm_compute; reflexivity].
+  eexists. eexists. split; [vm_compute; reflexivity|]. split; [reflexivity|].
+  split; [repeat constructor|]. split; [repeat constructor; cbn; intuition discriminate|].
+  split; [vm_compute; reflexivity|]. unfold veq. repeat split; vm_compute; reflexivity.
+Qed.
+Print Assumptions C03_pm_example.
